@@ -291,6 +291,7 @@ theorem groupvm_is_corevm_partial_fork (fuel : Nat) (s : CoreVM.VM) (f : CoreInd
       CoreVM.hview i2 = (CoreVM.hview i).map (CoreVM.setCore h (hd.pos + 1) .inactive) ++
         (CoreVM.newView s.r.nextUid (lps.map (·.2))).map (fun t => (t.1, t.2.1 + 1, t.2.2)) ∧
       x'.forkUids = OMap.insert u h x.forkUids ∧ i2.status = i.status ∧ s2.r.nextUid = s.r.nextUid + lps.length ∧
+      s2.r.choices = s.r.choices ∧
       -- the HeadX records: the forking head lists the new heads as its children, the new heads have none
       (∀ a0, OMap.lookup (f, h) s.r.hx = some a0 → (∀ m, m > s.r.nextUid → OMap.lookup (f, CoreVM.uidOf m) s.r.hx = none) →
         ((OMap.lookup (f, h) s2.r.hx).getD {}).childHeadUids = a0.childHeadUids ++ (CoreVM.newKeys f s.r.nextUid lps.length).map (·.2) ∧
